@@ -312,6 +312,13 @@ class RestAPI(object):
                     "Message body {} does not contain valid JSON".format(data)
                 )
 
+            # The handlers below all expect the request body to be a JSON object.
+            if not isinstance(params, dict):
+                return aws_error(
+                    "SerializationException",
+                    "The request body must be a JSON object"
+                ), 400
+
             # ------------------------------------------------------------------
 
             """
